@@ -347,6 +347,38 @@ def run_refusals(spec, rec):
                 c.add(core.SubComponent(datatype=dt, value=gen.witness(v, dt), version=v, validation_level=1))
                 c.add(core.SubComponent(datatype=dt, value=gen.witness(v, dt), version=v, validation_level=1))
             probes.append(('cardinality-overflow:second-subcomponent-in-%s' % cname, second_named))
+        # a handle on a component of a field that did not exist yet, used after the field has been created by other means:
+        # the non-repeatable field is not created a second time
+        for sname in ('PID', 'PV1', 'OBR', 'NK1', 'EVN'):
+            rws = [r for r in gen.usable_rows(v, sname) if r.card[1] == 1 and r.kind == 'sequence'] \
+                if tables.segments(v).get(sname) else []
+            rws = [r for r in rws if tables.components(v, r.datatype) and tables.components(v, r.datatype)[0].ok and
+                   tables.components(v, r.datatype)[0].kind == 'leaf' and tables.components(v, r.datatype)[0].card[1] != 0]
+            if not rws:
+                continue
+            r0 = rws[0]
+            c0 = tables.components(v, r0.datatype)[0]
+
+            def stale(sname=sname, r0=r0, c0=c0):
+                sg = core.Segment(sname, version=v, validation_level=1)
+                handle = getattr(getattr(sg, r0.name.lower()), c0.name.lower())
+                setattr(sg.add_field(r0.name), c0.name.lower(), gen.witness(v, c0.datatype))
+                handle.value = gen.witness(v, c0.datatype)
+            probes.append(('cardinality-overflow:stale-traversal-handle:%s' % r0.name, stale))
+            break
+        # a withdrawn field (maximum 0) cannot be populated through its proxy either
+        done = 0
+        for sname, rows_ in sorted(tables.segments(v).items()):
+            for r in rows_ or []:
+                if r.ok and r.card == (0, 0) and r.num and done < 3 and sname != 'MSH':
+                    done += 1
+                    probes.append(('cardinality-overflow:withdrawn-field-by-name:%s' % r.name,
+                                   lambda sname=sname, r=r: setattr(core.Segment(sname, version=v, validation_level=1),
+                                                                    r.name.lower(), 'X')))
+                    probes.append(('cardinality-overflow:withdrawn-field-through-proxy:%s' % r.name,
+                                   lambda sname=sname, r=r: setattr(getattr(core.Segment(sname, version=v,
+                                                                                         validation_level=1),
+                                                                            r.name.lower()), 'value', 'X')))
         for what, fn in probes:
             rec.evaluation(('refusal', v, what))
             case = {'kind': 'refusal', 'version': v, 'what': what}
